@@ -8,16 +8,18 @@
 //   `a - b` is exact.  In IEEE arithmetic `alpha - step >= cmin` can fail by one ulp; that gap is this assumption.
 // ---------------------------------------------------------------------------------------------
 // crate::linalg::{BaseMatrix, Matrix} flattened: the optimiser only asks for the shape and for row copies.
-// ASSUME[A-MATRIX-ROWS] generic code over M: Matrix<T> is verified against: shape().0 is the row count, get_row(i) needs i < rows.
+// ASSUME[A-MATRIX-ROWS] generic code over M: Matrix<T> is verified against: shape().0 is the row count, get_row(i) needs i < rows and returns row i.
 pub trait Matrix<T: RealNumber>: Sized {
     type RowVector: BaseVector<T>;
     spec fn nrows_spec(&self) -> int;
+    spec fn row_spec(&self, i: int) -> Self::RowVector;     // (a copy of) row i
 //@checkdecl src/linalg/mod.rs :: pub trait BaseMatrix<T: RealNumber>: Clone + Debug :: shape :: fn shape(&self) -> (usize, usize)
     fn shape(&self) -> (s: (usize, usize))
         ensures s.0 == self.nrows_spec();
 //@checkdecl src/linalg/mod.rs :: pub trait BaseMatrix<T: RealNumber>: Clone + Debug :: get_row :: fn get_row(&self, row: usize) -> Self::RowVector
     fn get_row(&self, row: usize) -> (r: Self::RowVector)
-        requires row < self.nrows_spec();
+        requires row < self.nrows_spec(),
+        ensures r == self.row_spec(row as int);
 }
 // crate::svm::Kernel as the optimiser sees it: a total function returning SOME T (kernel values are irrelevant to
 // feasibility).  The closed forms of the built-in kernels are the subject of kernels.rs.
@@ -74,7 +76,14 @@ spec fn feasible_seq<T: RealNumber, V: BaseVector<T>>(s: Seq<SupportVector<T, V>
     &&& forall|i: int| 0 <= i < s.len() ==> sv_ok(#[trigger] s[i], ys, c)
     &&& sum_alpha(s, s.len() as int) == 0real
 }
+// second invariant (not needed for feasibility): "its support vectors are training rows", each sample at most once
+spec fn samples_seq<T: RealNumber, M: Matrix<T>>(s: Seq<SupportVector<T, M::RowVector>>, xm: &M) -> bool {
+    &&& forall|i: int| 0 <= i < s.len() ==> (#[trigger] s[i]).index < xm.nrows_spec() && s[i].x == xm.row_spec(s[i].index as int)
+    &&& forall|a: int, b: int| 0 <= a < s.len() && 0 <= b < s.len() && a != b ==> (#[trigger] s[a]).index != (#[trigger] s[b]).index
+}
 impl<'a, T: RealNumber, M: Matrix<T>, K: Kernel<T, M::RowVector>> Optimizer<'a, T, M, K> {
+    // every support vector is a row of the training matrix, no sample occurs twice
+    spec fn samples_ok(&self) -> bool { samples_seq::<T, M>(self.sv@, self.x) }
     // dual feasibility of the optimiser state
     spec fn feasible(&self) -> bool { feasible_seq(self.sv@, self.y.vview(), self.parameters.c) }
     // the training problem (data, labels, parameters, kernel) is the same
@@ -177,6 +186,71 @@ proof fn lemma_drops_only_zero<T: RealNumber, V: BaseVector<T>>(o: Seq<SupportVe
                 assert forall|i: int| 0 <= i < o1.len() implies sv_ok(#[trigger] o1[i], ys, c) by { assert(o1[i] == o[i]); }
             }
         }
+    }
+}
+// a subsequence of distinct training rows consists of distinct training rows
+proof fn lemma_drops_samples<T: RealNumber, M: Matrix<T>>(o: Seq<SupportVector<T, M::RowVector>>, n: Seq<SupportVector<T, M::RowVector>>, xm: &M)
+    requires drops_only_zero(o, n),
+    ensures
+        forall|j: int| 0 <= j < n.len() ==> o.contains(#[trigger] n[j]),
+        samples_seq::<T, M>(o, xm) ==> samples_seq::<T, M>(n, xm),
+    decreases o.len()
+{
+    if o.len() > 0 {
+        let o1 = o.drop_last();
+        let last = o.len() - 1;
+        if n.len() > 0 && n.last() == o.last() && drops_only_zero(o1, n.drop_last()) {
+            let n1 = n.drop_last();
+            lemma_drops_samples::<T, M>(o1, n1, xm);
+            assert forall|j: int| 0 <= j < n.len() implies o.contains(#[trigger] n[j]) by {
+                if j < n1.len() {
+                    assert(n[j] == n1[j]);
+                    let i = choose|i: int| 0 <= i < o1.len() && o1[i] == n1[j];
+                    assert(o[i] == o1[i]);
+                } else { assert(n[j] == o[last]); }
+            }
+            if samples_seq::<T, M>(o, xm) {
+                assert(samples_seq::<T, M>(o1, xm)) by {
+                    assert forall|i: int| 0 <= i < o1.len() implies (#[trigger] o1[i]).index < xm.nrows_spec() && o1[i].x == xm.row_spec(o1[i].index as int) by { assert(o1[i] == o[i]); }
+                    assert forall|a: int, b: int| 0 <= a < o1.len() && 0 <= b < o1.len() && a != b implies (#[trigger] o1[a]).index != (#[trigger] o1[b]).index by { assert(o1[a] == o[a] && o1[b] == o[b]); }
+                }
+                assert forall|i: int| 0 <= i < n.len() implies (#[trigger] n[i]).index < xm.nrows_spec() && n[i].x == xm.row_spec(n[i].index as int) by {
+                    let k = choose|k: int| 0 <= k < o.len() && o[k] == n[i];
+                }
+                assert forall|a: int, b: int| 0 <= a < n.len() && 0 <= b < n.len() && a != b implies (#[trigger] n[a]).index != (#[trigger] n[b]).index by {
+                    if a < n1.len() && b < n1.len() { assert(n[a] == n1[a] && n[b] == n1[b]); }
+                    else {
+                        // one of them is the kept last entry of o, the other comes from o1
+                        let c = if a < n1.len() { a } else { b };
+                        assert(n[c] == n1[c]);
+                        let i = choose|i: int| 0 <= i < o1.len() && o1[i] == n1[c];
+                        assert(o[i] == o1[i]);
+                        assert(o[i].index != o[last].index);
+                    }
+                }
+            }
+        } else {
+            lemma_drops_samples::<T, M>(o1, n, xm);
+            assert forall|j: int| 0 <= j < n.len() implies o.contains(#[trigger] n[j]) by {
+                let i = choose|i: int| 0 <= i < o1.len() && o1[i] == n[j];
+                assert(o[i] == o1[i]);
+            }
+            if samples_seq::<T, M>(o, xm) {
+                assert(samples_seq::<T, M>(o1, xm)) by {
+                    assert forall|i: int| 0 <= i < o1.len() implies (#[trigger] o1[i]).index < xm.nrows_spec() && o1[i].x == xm.row_spec(o1[i].index as int) by { assert(o1[i] == o[i]); }
+                    assert forall|a: int, b: int| 0 <= a < o1.len() && 0 <= b < o1.len() && a != b implies (#[trigger] o1[a]).index != (#[trigger] o1[b]).index by { assert(o1[a] == o[a] && o1[b] == o[b]); }
+                }
+            }
+        }
+    }
+}
+proof fn lemma_drops_samples_all<T: RealNumber, M: Matrix<T>>(xm: &M)
+    ensures forall|o: Seq<SupportVector<T, M::RowVector>>, n: Seq<SupportVector<T, M::RowVector>>|
+        #[trigger] drops_only_zero(o, n) && samples_seq::<T, M>(o, xm) ==> samples_seq::<T, M>(n, xm),
+{
+    assert forall|o: Seq<SupportVector<T, M::RowVector>>, n: Seq<SupportVector<T, M::RowVector>>|
+        #[trigger] drops_only_zero(o, n) && samples_seq::<T, M>(o, xm) implies samples_seq::<T, M>(n, xm) by {
+        lemma_drops_samples::<T, M>(o, n, xm);
     }
 }
 // the same, for every pair of sequences (entry-level hint of `reprocess` / `finish`)
